@@ -42,6 +42,7 @@ def run(repo, chk, tier):
     coverage(repo, chk)
     annotation_and_histogram(repo, chk)
     rare_table(repo, chk)
+    raw_values(repo, chk)
 
 
 # -- 1 / 2 ---------------------------------------------------------------------------------
@@ -503,7 +504,14 @@ def hash_bytes(repo, chk):
         chk.expect(not problems, 'C13.4e', 'R16', fn.site(problems[0][0]) if problems else fn.site(c), ast.unparse(c), f'values of kind {sorted(incoming)} all reach xxhash as bytes',
                    (problems[0][1] if problems else '') + ': the cardinality sketches cannot be updated for such a column (numeric noise controls / str values)')
     seed = [k for k in c.keywords if k.arg == 'seed']
-    chk.expect(bool(seed) and isinstance(seed[0].value, ast.Constant), 'C13.4f', 'R8', fn.site(c), ast.unparse(c), 'constant seed: the hash of a value is the same in every batch and process', 'internal_hash must use a constant seed (same value -> same hash in every batch)')
+    def _const_seed(e):
+        if isinstance(e, ast.Constant):
+            return True
+        if isinstance(e, ast.Name):
+            vs = fn.module.assigns.get(e.id, [])
+            return len(vs) == 1 and isinstance(vs[0], ast.Constant) and not fn.module.rebinds_global(e.id) and e.id not in fn.params
+        return False
+    chk.expect(bool(seed) and _const_seed(seed[0].value), 'C13.4f', 'R8', fn.site(c), ast.unparse(c), 'constant seed: the hash of a value is the same in every batch and process', 'internal_hash must use a constant seed (same value -> same hash in every batch)')
 
 
 # -- 5 -----------------------------------------------------------------------------------------
@@ -693,3 +701,18 @@ def rare_table(repo, chk):
     cs = [c for c in calls(rk) if rk.module.dotted(c.func) == f'{CU}.summarize_rare_counts']
     okp = bool(cs) and name is not None and ast.unparse(cs[0].args[0]) == name
     chk.expect(okp, 'C13.7c', 'R6', rk.site(cs[0]) if cs else rk.site(), ast.unparse(cs[0])[:100] if cs else 'summarize_rare_counts(...)', 'the table is built from the rare-value store returned by the streaming function', 'summarize_rare_counts must receive the rare-value store returned by estimate_importances_minibatches')
+
+
+# -- 8 the statistics see the values as read ---------------------------------------------------------------
+def raw_values(repo, chk):
+    """C13.8 - coverage, cardinalities and value counts are computed in compute_batch_ranking from the running frame.  Exactness and independence
+    of the batch split require that a value is the same token in every batch: a per-batch rewrite of an existing column (type inference, parsing,
+    normalisation that depends on what else is in the batch) makes '1' and 1.0 different keys in different batches."""
+    from .common import column_overwrites
+    fn = repo.func(CR, 'compute_batch_ranking')
+    ow = column_overwrites(fn)
+    for n, F, k, why in ow:
+        chk.bad('C13.8', 'R11', fn.site(n), ast.unparse(n).replace('\n', ' ')[:120], f'an existing column of the batch frame is rewritten per batch before the statistics are taken ({why}): the same token can be a different '
+                'key in different batches, so cardinalities, histograms and the rare-value report depend on the batch split')
+    if not ow:
+        chk.ok('C13.8', 'R11', fn.site(), 'stores into the batch frame in compute_batch_ranking', 'the statistics are taken from the columns as they were read (no per-batch rewrite of an existing column)')
